@@ -74,6 +74,17 @@ func genC06(t *rapid.T) C06Case {
 		o.Created = o.Created % 2
 	}
 	c := C06Case{World: WorldCase{Params: ctlsim.Params{Shards: rapid.SampledFrom([]int{0, 0, 3}).Draw(t, "shards"), ExtraAnnPrefixes: p.PrefixDupAnn}}}
+	// --enable-endpointslices-api: the slices of a service are listed in any order
+	c.World.Params.EPSlices = chanceT(t, "epslices", 20)
+	// Gateway API objects next to the ingresses (HTTPRoutes with tied creation times), served as v1 or as v1beta1 only
+	if chanceT(t, "gateway", 30) {
+		g.genGatewayExtras()
+		for _, o := range g.W.OfKind(world.KHTTPRoute) {
+			o.Created = o.Created % 2
+		}
+		c.World.Params.Gateway = true
+		c.World.Params.GatewayB1 = chanceT(t, "gatewayb1", 50)
+	}
 	for _, o := range g.W.List() {
 		c.World.Objs = append(c.World.Objs, o.Clone())
 	}
